@@ -160,7 +160,8 @@ func HarnessC09Publish() {
 	}
 	zz.Assert("secret-exists-after-publish", exists)
 	// every stored key is an allowed key produced for this XR, with its value
-	// (keys that were in a pre-existing secret of ours may remain)
+	// (a key that was in the pre-existing secret and is kept is judged last)
+	leftOver := false
 	for k, v := range post {
 		produced := false
 		for i, dk := range keys {
@@ -181,6 +182,7 @@ func HarnessC09Publish() {
 			// anything else was in the XR's own secret before and is unchanged
 			old, wasThere := preData[k]
 			zz.Assert("only-allowed-produced-keys-are-added", wasThere && string(old) == string(v))
+			leftOver = true
 		}
 	}
 	// every allowed produced key is there
@@ -209,6 +211,10 @@ func HarnessC09Publish() {
 		zz.Assert("identical-data-never-rewritten", !published && effective == 0)
 	}
 	zz.Observe("published", published, len(post))
+	// last, because the publisher is known to fail it (known_findings.txt): the
+	// XR's secret holds only allowed keys produced for this XR - a key left in
+	// it from before (no longer produced, or no longer allowed) is removed
+	zz.Assert("key-no-longer-produced-or-allowed-is-removed-from-the-xrs-secret", !leftOver)
 }
 
 // HarnessC09Extract: connection details extracted from a composed resource
